@@ -1,6 +1,7 @@
 mod alpha;
 mod bfs;
 mod ev;
+mod heap;
 mod model;
 mod props;
 mod real;
@@ -21,6 +22,9 @@ macro_rules! with_ifma {
         $b
     };
 }
+
+#[global_allocator]
+static GLOBAL: heap::Observer = heap::Observer;
 
 use ev::{Ctx, Tier};
 use serde_json::json;
@@ -141,6 +145,7 @@ fn main() {
         "C08" => props::c08::run(&ctx),
         "C09" => props::c09::run(&ctx),
         "C12" => props::c12::run(&ctx),
+        "C14" => props::c14::run(&ctx),
         "C15" => props::c15::run(&ctx),
         "C16" => props::c16::run(&ctx),
         "C17" => props::c17::run(&ctx),
